@@ -332,6 +332,8 @@ func runMain(args []string) int {
 				omu.Lock()
 				ow.Write(b)
 				ow.WriteByte('\n')
+				// flush as we go: if the whole run is killed for taking too long, the verdicts reached so far still count
+				ow.Flush()
 				omu.Unlock()
 				cmu.Lock()
 				total++
